@@ -430,12 +430,24 @@ def provably_positive_sym(F, fn, gb):
     for p in paths:
         for a in p.atoms:
             if a[0] == "bool" and a[3] == (fn.name, gb) and a[2] and a[1][0] == "binop" and a[1][1] == "Lt" and a[1][2][0] == "const" and a[1][2][1] == 0:
-                vals.append(a[1][3])
+                vals.append((a[1][3], p, a[4]))
     if not vals:
         return False
-    for v in vals:
+    for v, p, seq in vals:
         if internal_sources(F, fn, v):
             lb = lower_bound(F, fn, v)
+            # the path itself may have clamped the value before asserting it: `if v < 1 { 1 } else { v }`
+            for b in p.atoms:
+                if b[0] != "bool" or b[4] >= seq or b[1][0] != "binop":
+                    continue
+                op, x, y = b[1][1], b[1][2], b[1][3]
+                got = None
+                if strip_site(x) == strip_site(v) and y[0] == "const" and isinstance(y[1], int):
+                    got = y[1] if (op == "Lt" and not b[2]) else (y[1] + 1 if (op == "Le" and not b[2]) else None)      # !(v < c) / !(v <= c)
+                elif strip_site(y) == strip_site(v) and x[0] == "const" and isinstance(x[1], int):
+                    got = x[1] + 1 if (op == "Lt" and b[2]) else (x[1] if (op == "Le" and b[2]) else None)              # c < v / c <= v
+                if got is not None:
+                    lb = got if lb is None else max(lb, got)
             if lb is None or lb < 1:
                 return False
     return True
